@@ -389,13 +389,18 @@ class _Threader:
             if "ops" in rv:
                 rv["ops"] = [rn_op(o) for o in rv["ops"]]
             d_ = list(s_["d"])
-            if len(d_) == 1:
-                nl = fresh(d_[0])
-                rename[d_[0]] = nl
-                d_ = [nl]
-            elif d_:
+            if len(d_) > 1:
                 d_ = rn_place(d_)
             return dict(s_, d=d_, rv=rv)
+
+        def rn_dest(s_):
+            """a copy of a tagged value gets a name of its own (never the return place, never a value computed afresh)"""
+            if fresh is not None and len(s_["d"]) == 1 and s_["d"][0] != 0:
+                nl = fresh(s_["d"][0])
+                rename[s_["d"][0]] = nl
+                s_["d"] = [nl]
+                return nl
+            return s_["d"][0]
         first, prev, cur = None, None, start
         steps, seen, resolved_any = 0, set(), False
         while steps < MAX_THREAD_STEPS and cur is not None and cur not in seen:
@@ -434,9 +439,11 @@ class _Threader:
                         elif src in DISCR:
                             tag = ("int", DISCR[src])
                 if tag is not None:
+                    d = rn_dest(s)
                     env[d] = tag
                 else:
                     env.pop(d, None)
+                    rename.pop(d, None)
             t = blk["term"]
             nxt, newterm, stop = None, dict(t), False
             if t["k"] in ("goto", "drop", "assert"):
